@@ -30,6 +30,12 @@ def gen_pattern(rng, lnls, base, p_present=0.7):
 
 def gen_diag(rng, mods, lnls):
     d = {}
+    mods, lnls = list(mods), list(lnls)
+    if rng.random() < 0.5:
+        # the diagnosis lists modalities / LNLs in another order than the model (a dict: the order carries no meaning;
+        # R5-C02: observation matrix built in the diagnosis' order, encoding in the model's order)
+        mods.reverse()
+        rng.shuffle(lnls)
     for m in mods:
         if rng.random() < 0.85:
             d[m] = {l: rng.choice([True, False, None]) for l in lnls if rng.random() < 0.85}
